@@ -193,6 +193,14 @@ class Classifier:
                             return self.classify(e.args[0]) if e.args else UNKNOWN
                 return FRESH
             return UNKNOWN
+        if isinstance(f, ast.Name) and f.id == 'getattr' and len(e.args) in (2, 3) and isinstance(e.args[0], ast.Name) and e.args[0].id == 'self' \
+                and isinstance(e.args[1], ast.Constant) and isinstance(e.args[1].value, str) and not e.keywords:
+            # getattr(self, 'name'[, default]) reads self.name (or gives the default)
+            out = self.classify(ast.copy_location(ast.Attribute(value=e.args[0], attr=e.args[1].value, ctx=ast.Load()), e))
+            if len(e.args) == 3:
+                d_ = self.classify(e.args[2])
+                out = join(out, d_) if d_ is not None else out
+            return out
         if isinstance(f, ast.Name) and f.id in ('len', 'int', 'float', 'range', 'sum', 'max', 'min', 'abs', 'list', 'tuple',
                                                 'dict', 'set', 'str', 'bool', 'enumerate', 'zip', 'sorted', 'isinstance',
                                                 'type', 'round', 'any', 'all', 'callable', 'hasattr', 'divmod', 'repr'):
